@@ -171,7 +171,7 @@ def find_property_index(obj, search_key, search_value):
     """
     # Special-case keys which are numbers-as-strings, e.g. for cyber-observable
     # mappings.  Use the int value of the key as the index.
-    if search_key.isdigit():
+    if search_key.isascii() and search_key.isdigit():
         return int(search_key)
 
     if isinstance(obj, stix2.base._STIXBase):
